@@ -361,6 +361,8 @@ fn main() {
                     let flag = std::rc::Rc::new(std::cell::Cell::new(0));
                     match tokio::block_on(n.store.append(ents, IOFlushed(flag.clone(), PhantomData))) {
                         Ok(_) => format!("ok flushed={}", flag.get()),
+                        // the flush callback is the acknowledgement openraft acts on: it must not have fired when the call fails
+                        Err(_) if flag.get() > 0 => format!("err flushed={}", flag.get()),
                         Err(_) => "err".into(),
                     }
                 }
